@@ -159,7 +159,13 @@ func (c *Ctx) foldSerialiser(r *Report, ser, render *ssa.Function, mode string) 
 	// the renderer / the serialiser itself on the longest path; every other path of that type must be a
 	// prefix of it (error returns stop early)
 	_ = c.driverRoles()
-	paths, _ := c.enumPathsInl(ser, 20000, c.serKeep()...)
+	fo := &InlineOpts{Keep: map[*ssa.Function]bool{}, Loops: true}
+	for _, k := range c.serKeep() {
+		if k != nil {
+			fo.Keep[k] = true
+		}
+	}
+	paths, _ := c.enumPathsOpt(ser, 20000, fo)
 	inconsistent := map[string]bool{}
 	allSeqs := map[string][][]string{}
 	for _, p := range paths {
